@@ -11,6 +11,7 @@ mod rng;
 mod c16;
 mod c13;
 mod c12;
+mod c17;
 
 use std::io::{BufRead, Write};
 
@@ -55,6 +56,7 @@ fn lookup(id: &str) -> Option<(&'static str, Gen, Exec)> {
         "C16" => Some(("C16", c16::generate, c16::exec)),
         "C13" => Some(("C13", c13::generate, c13::exec)),
         "C12" => Some(("C12", c12::generate, c12::exec)),
+        "C17" => Some(("C17", c17::generate, c17::exec)),
         _ => None,
     }
 }
